@@ -34,7 +34,7 @@ Hypothesis Hbase : forall a, case_attr name (fst sp) (snd sp) = Some a -> fst sp
 Hypothesis Absent : find upper (upper name) (upper name) (groups (d_recs d)) = Ok None.
 Hypothesis Made :
   (do xs <- split_all (groups (d_recs d));
-   prefix_entries name up (existing_of xs) entry) = Ok recs_new.
+   prefix_entries name up (existing_of upper xs) entry) = Ok recs_new.
 
 Lemma new_records :
   exists lf sfn8 ext3 a2 alias,
@@ -44,13 +44,13 @@ Lemma new_records :
 Proof.
   destruct (find_none_split_all _ _ _ _ Absent) as (xs & Exs). rewrite Exs in Made. cbn [bind] in Made.
   destruct (case_attr name (fst sp) (snd sp)) as [a|] eqn:Ca.
-  - destruct (new_short name up (existing_of xs) entry a Ca (Hbase a eq_refl) Hu Eok) as (P & R & L & S).
+  - destruct (new_short name up (existing_of upper xs) entry a Ca (Hbase a eq_refl) Hu Eok) as (P & R & L & S).
     rewrite P in Made. inversion Made; subst recs_new.
     pose proof (case_attr_lengths _ _ _ _ Ca) as [L8 L3].
     eexists [], _, _, a, _. cbv zeta. repeat split; try exact S; try apply R.
     + apply ljust_length, L8.
     + apply ljust_length, L3.
-  - destruct (new_long name up (existing_of xs) entry recs_new Ca Hne Hok Hl Hf Hu Eok Made)
+  - destruct (new_long name up (existing_of upper xs) entry recs_new Ca Hne Hok Hl Hf Hu Eok Made)
       as (lf & sfn8 & ext3 & E & R & _ & L8 & L3 & _ & S).
     exists lf, sfn8, ext3, 0, (snd (Spec.short_name (short_record entry sfn8 ext3 0))).
     cbv zeta. repeat split; try assumption; apply R.
